@@ -72,3 +72,15 @@ Proof.
   split; congruence.
 Qed.
 Print Assumptions c07_tables_layout_invariant_on_core.
+
+(** (e) whole-pipeline layout invariance at COLUMN level on the single-SELECT fragment (corollary of Lemma B,
+    Tree/LemmaBCorollaries.v): the end-to-end column pairs of INSERT / CTAS / VIEW over one SELECT from base tables do not
+    depend on the trivia between tokens. *)
+From SV Require Import Tree.LemmaB Tree.LemmaBProofs Tree.LemmaBCorollaries.
+
+Theorem c07_columns_layout_invariant_on_single_select : forall n1 n2 e s,
+  noise_ok n1 = true -> noise_ok n2 = true -> env_ok e = true ->
+  stmt_ok s = true -> sshape s = true -> colshape s = true -> sel_tables_syntactic s = true ->
+  script_pairs e false [] [r_stmt n1 s] = script_pairs e false [] [r_stmt n2 s].
+Proof. exact cols_layout_invariant_on_single_select. Qed.
+Print Assumptions c07_columns_layout_invariant_on_single_select.
